@@ -7,7 +7,7 @@ from ..callgraph import get_callgraph
 from ..cfg import cfg_of
 from ..locks import accesses, get_locks
 from ..model import AnalysisError, dotted, norm, walk_own
-from .common import assigned_names, cmp_fact, find_calls, guards_of, key_of, mentions, tail_is
+from .common import assigned_names, cmp_fact, find_calls, guards_of, key_of, mentions, resolve_locals, tail_is
 
 EXPLANATION = (
     "Static monitor-discipline analysis of ThreadedTaskDispatcher: every access to queue/threads/stop_count/"
@@ -313,7 +313,12 @@ def rule_r6(ctx):
             an = [x for x in g.nodes if x.kind == "stmt" and x.ast is adds[0]]
             no = norm(adds[0].value.args[0]) if adds[0].value.args else None
             cont = norm(adds[0].value.func.value)
-            free = an and no and any((cmp_fact(t, pol) or ("",))[0] == "in" and cmp_fact(t, pol)[1] == no and cmp_fact(t, pol)[3] is False and tail_is(cmp_fact(t, pol)[2], cont.split(".")[-1]) for (t, pol) in guards_of(g, an[0]))
+            nos = {no}
+            if adds[0].value.args and isinstance(adds[0].value.args[0], ast.Name):
+                src = resolve_locals(f, adds[0].value.args[0])  # new_no = candidate: the tested local, copied
+                if isinstance(src, ast.Name):
+                    nos.add(src.id)
+            free = an and no and any((cmp_fact(t, pol) or ("",))[0] == "in" and cmp_fact(t, pol)[1] in nos and cmp_fact(t, pol)[3] is False and tail_is(cmp_fact(t, pol)[2], cont.split(".")[-1]) for (t, pol) in guards_of(g, an[0]))
             if free:
                 ctx.r.ok(rid, "a new worker gets a number that is not in the set", f.loc(adds[0]))
             else:
